@@ -169,7 +169,7 @@ def proj_full(out):
     return out
 
 
-def rename_oracle(sc, iout):
+def rename_oracle(sc, iout, mout=None):
     """C20 observed directly: reversibility / idempotence / canonical spelling on the implementation"""
     if sc.get('stream') != 'snake' or sc['op'] != 'rename':
         nm = sc['name']
@@ -194,6 +194,79 @@ def rename_oracle(sc, iout):
     return None
 
 
+def strip_set(j):
+    """dataclass equality ignores the set-field record (C16): drop it before comparing typed values"""
+    if isinstance(j, list):
+        return [strip_set(x) for x in j]
+    if isinstance(j, dict):
+        if 'obj' in j and isinstance(j['obj'], list) and len(j['obj']) == 3:
+            return {'obj': [j['obj'][0], strip_set(j['obj'][1])]}
+        return {k: strip_set(v) for k, v in j.items()}
+    return j
+
+
+def rt_oracle(sc, iout, mout):
+    """C05/C06 observed directly, inside the fragment the theorems cover (RTSafe, decided by the Lean model for this
+    converter; unions need the per-value condition RTOk and are judged by correspondence only)"""
+    m = mout.get('out') if isinstance(mout, dict) else None
+    if not (isinstance(m, dict) and m.get('rtsafe')) or not isinstance(iout, dict) or 'x' not in iout:
+        return None
+    text = json.dumps([sc.get('ty'), (sc.get('decl') or {}).get('classes')])
+    if '"union"' in text or '"cls"' in text:
+        # unions need the per-value condition RTOk; dataclass instances are fixed points only when canonical
+        # (defaults already typed, excluded fields at their default): both are judged by correspondence with the model
+        return None
+    x = canon(strip_set(iout['x']))
+    if 'd_raises' in iout:
+        return f"serialising a typed value raised {iout['d_raises']}"
+    x2 = iout.get('x2')
+    if not (isinstance(x2, dict) and 'value' in x2):
+        return f'the serialised form is not read back: {json.dumps(x2)[:200]}'
+    if canon(strip_set(x2['value'])) != x:
+        return f"read back {json.dumps(x2['value'])[:150]} differs from {json.dumps(iout['x'])[:150]}"
+    if sc['op'] == 'roundtrip':
+        d, d2 = canon(iout.get('d')), canon((iout.get('d2') or {}).get('ok'))
+        if corr.has_set_type(sc):
+            d, d2 = corr.sort_lists(d), corr.sort_lists(d2)
+        if d != d2:
+            return f're-serialising gives different data: {json.dumps(d2)[:150]} vs {json.dumps(d)[:150]}'
+        bad = non_interchange(iout.get('d'))
+        if bad:
+            return f'into_data produced a non-interchange value: {bad}'
+    if sc['op'] == 'convert2' and sc.get('_same_type') is False:
+        return 'convert returned a value of a different type'
+    return None
+
+
+def non_interchange(j):
+    if isinstance(j, list):
+        for x in j:
+            r = non_interchange(x)
+            if r:
+                return r
+        return None
+    if isinstance(j, dict):
+        for k, v in j.items():
+            if k in ('set', 'fset', 'deque', 'map', 'op', 'en', 'obj', 'wrap'):
+                return k
+            r = non_interchange(v)
+            if r:
+                return r
+    return None
+
+
+def valid_stream(seed, n, op):
+    """mostly-valid (type, value) scenarios (round trips need accepted values)"""
+    out = []
+    k = 0
+    while len(out) < n and k < 6:
+        for s in gen.scenarios_conv(seed + 97 * k, n, op=op):
+            if s['stream'] == 'valid' or len(out) % 7 == 0:
+                out.append(s)
+        k += 1
+    return out[:n]
+
+
 PLUGS = {
     'C01': dict(streams=lambda seed, tier: conv_stream(seed, sizes(tier, 1500, 30000), 'from_data', []) +
                 conv_stream(seed + 1, sizes(tier, 300, 3000), 'build', []),
@@ -212,6 +285,11 @@ PLUGS = {
                 with_oracles(gen.scenarios_cond(seed, sizes(tier, 500, 8000)), ['c04']) +
                 with_oracles(gen.scenarios_tagged(seed, sizes(tier, 400, 6000)), ['c04']),
                 project=proj_verdict_value, oracles=['c04'], disagreement_is_failure=False),
+    'C05': dict(streams=lambda seed, tier: valid_stream(seed, sizes(tier, 2000, 30000), 'roundtrip') +
+                [dict(s, op='roundtrip') for s in gen.scenarios_tuplelayout(seed, sizes(tier, 400, 6000))],
+                project=proj_full, oracles=[], disagreement_is_failure=True, post_oracle=rt_oracle),
+    'C06': dict(streams=lambda seed, tier: valid_stream(seed, sizes(tier, 2000, 30000), 'convert2'),
+                project=proj_full, oracles=[], disagreement_is_failure=True, post_oracle=rt_oracle),
     'C07': dict(streams=lambda seed, tier: conv_stream(seed, sizes(tier, 1500, 30000), 'try_collect', ['c07']) +
                 with_oracles(gen.scenarios_shapes(seed, sizes(tier, 800, 12000), op='try_collect'), ['c07']) +
                 with_oracles(gen.scenarios_tuplelayout(seed, sizes(tier, 500, 8000), op='try_collect'), ['c07']),
@@ -252,7 +330,7 @@ def judge(pid, plug, res, failing, disagreements, hist, oracle_hits):
         orc = sc.get('_oracle') or {}
         if plug.get('post_oracle'):
             try:
-                orc = dict(orc, post=plug['post_oracle'](sc, iout))
+                orc = dict(orc, post=plug['post_oracle'](sc, iout, mout))
             except Exception as e:  # noqa
                 orc = dict(orc, post='ORACLE-ERROR ' + str(e))
         for name, verdict in orc.items():
